@@ -89,6 +89,12 @@ def _rs_inputs(case):
         for b in range(-5, 6):
             for c in range(-4, 5):
                 yield dict(a=a, b=b, c=c)
+    # Python integers are unbounded: steps and bounds far beyond any float (an implementation through floating-point division
+    # rounds, overflows or underflows there)
+    for big in (2 ** 53 + 1, 10 ** 30, 10 ** 400):
+        for (a, b, c) in ((0, 1, big), (0, 3, big), (2, -1, -big), (0, big, 1), (0, big, big), (0, big + 1, big), (-big, 0, big),
+                          (0, 2 * big + 1, 2), (3, 3, big), (1, 0, big)):
+            yield dict(a=a, b=b, c=c)
 
 
 @harness("C13", native_inputs=_rs_inputs)
